@@ -60,6 +60,10 @@ def nodupNames : List String → Bool
 def allEmitted (c : Cmd) : Bool :=
   (c.fields.map (·.1)).all (fun f => (emittedDeep c.marshal).contains f)
 
+/-- the AndX words go out in the prologue, ahead of every statement: like an emitted field, the AndX
+    block is not assigned afterwards (so the command after `Marshal` holds the block that went out) -/
+def andxUntouched (ms : List MStmt) : Bool := ms.all (fun s => writesField s != some andxField)
+
 /-- C05 static predicate.
     * `conformsStmts`: every integer little-endian and exactly as wide as its declared type; nothing
       ahead of the parameter block;
@@ -69,7 +73,8 @@ def allEmitted (c : Cmd) : Bool :=
       fields of that block, each once, in declaration order (this also makes the block of a field
       unambiguous: a field emitted into both blocks fails it);
     * `noWriteAfterEmit`: a field's value does not change after it has been emitted;
-    these five are `ConformsCore`, what `conforms_sound` rests on (`Props/C05.lean` has, for each, a
+    * `andxUntouched`: nor does the AndX block, which the prologue emits;
+    these six are `ConformsCore`, what `conforms_sound` rests on (`Props/C05.lean` has, for each, a
     program failing only that rule whose bytes are not the MS-CIFS bytes).  Two more clauses are part
     of conformance without being needed by that theorem:
     * `isSublistOf (wireOrder c) …`: parameters are declared before data (`Spec.Cifs.encode` encodes
@@ -85,6 +90,7 @@ def Conforms (c : Cmd) : Bool :=
   emittedIn c .P == declaredIn c .P &&
   emittedIn c .D == declaredIn c .D &&
   noWriteAfterEmit c.marshal &&
+  andxUntouched c.marshal &&
   allEmitted c
 
 /-- the part of `Conforms` that `conforms_sound` uses -/
@@ -94,7 +100,8 @@ def ConformsCore (c : Cmd) : Bool :=
   nodupNames (c.fields.map (·.1)) &&
   emittedIn c .P == declaredIn c .P &&
   emittedIn c .D == declaredIn c .D &&
-  noWriteAfterEmit c.marshal
+  noWriteAfterEmit c.marshal &&
+  andxUntouched c.marshal
 
 /-- which clause of `Conforms` a command fails (for reporting) -/
 def conformsFailures (c : Cmd) : List String :=
@@ -105,6 +112,7 @@ def conformsFailures (c : Cmd) : List String :=
   (if emittedIn c .P == declaredIn c .P then [] else ["parameter block order"]) ++
   (if emittedIn c .D == declaredIn c .D then [] else ["data block order"]) ++
   (if noWriteAfterEmit c.marshal then [] else ["write after emission"]) ++
+  (if andxUntouched c.marshal then [] else ["AndX block assigned by a statement"]) ++
   (if allEmitted c then [] else
     ["never emitted: " ++ ", ".intercalate ((c.fields.map (·.1)).filter (fun f => !(emittedDeep c.marshal).contains f))])
 
